@@ -18,10 +18,54 @@ def snapshot(F):
     return (sorted(g, key=repr), sorted(o, key=repr), sorted(i, key=repr), sorted(map(repr, F._graph_dict)), list(F.start_vertices))
 
 
-def check_automaton(rep, d, starts, labels, L, inp, multiples=(1, 2, 3), full=True):
+def build_by_route(d, starts, route):
+    """the automaton with transition table d, obtained through one of the library's construction routes"""
+    if route == "graph_dict":
+        return fsa.FSA(copy.deepcopy(d), list(starts))
+    if route == "implicit_sinks_then_edges":
+        # states are introduced only as heads of edges where possible (no key of their own), edges leaving them are added later
+        heads = {w for nb in d.values() for w in nb.values()}
+        first = {v: dict(nb) for v, nb in d.items() if v not in heads or v in starts}
+        if not first:
+            first = {starts[0]: dict(d[starts[0]])}
+        F = fsa.FSA(copy.deepcopy(first), list(starts))
+        F.add_vertices([v for v in d if v not in F.vertices()])
+        for v, nb in d.items():
+            if v not in first:
+                for l, w in nb.items():
+                    F.add_edges([(v, w, l)])
+        return F
+    if route == "incremental":
+        F = fsa.FSA({}, start_vertices=list(starts))
+        F.add_vertices(list(d))
+        for v, nb in d.items():
+            F.add_edges([(v, w, l) for l, w in nb.items()])
+        return F
+    if route == "out_dict":
+        od = {v: {} for v in d}
+        for v, nb in d.items():
+            for l, w in nb.items():
+                od[v].setdefault(w, []).append(l)
+        return fsa.FSA(od, list(starts), graph_dict=False)
+    if route == "copy_of_edited":
+        F = fsa.FSA(copy.deepcopy(d), list(starts))
+        F.add_vertices(["__tmp__"])
+        if d:
+            v0 = next(iter(d))
+            F.add_edges([("__tmp__", v0, "zz")])
+        G = copy.deepcopy(F)
+        G.delete_vertex("__tmp__")
+        return G
+    raise ValueError(route)
+
+
+ROUTES = ["graph_dict", "implicit_sinks_then_edges", "incremental", "out_dict", "copy_of_edited"]
+
+
+def check_automaton(rep, d, starts, labels, L, inp, multiples=(1, 2, 3), full=True, route="graph_dict"):
     """all C10 clauses on one automaton given by its graph_dict d"""
     M = Model.from_graph_dict(d)
-    F = fsa.FSA(copy.deepcopy(d), list(starts))
+    F = build_by_route(d, starts, route)
     before = snapshot(F)
     s0 = starts[0]
     # --- walks: every word up to length L from every state
@@ -138,13 +182,14 @@ def small_automata(tier, rng, rep):
     if tier != 'thorough':
         three = [three[i] for i in rng.choice(len(three), size=250, replace=False)]
     cases += [(d, 3) for d in three]
-    rep.rule = "every graph_dict on <=2 states over {a,b}, three-state ones exhaustive (thorough) / 250 sampled (quick); start states 0 and a non-zero state; non-trivial = >= 2 edges"
+    rep.rule = "every graph_dict on <=2 states over {a,b}, three-state ones exhaustive (thorough) / 250 sampled (quick); start states 0 and a non-zero state; the automaton is obtained through 5 construction routes in turn (complete dictionary, implicit sinks then added edges, incremental, target->labels dictionary, deep copy of an edited automaton); non-trivial = >= 2 edges"
     rep.bound = f"{len(cases)} automata, words up to length 4"
     rep.exhaustive = tier == 'thorough'
-    for d, n in cases:
+    for ci, (d, n) in enumerate(cases):
         for starts in ([0], [n - 1]):
-            inp = {"graph_dict": {str(k): v for k, v in d.items()}, "start": starts}
-            ok = rep.attempt("operations_run", inp, lambda: check_automaton(rep, d, starts, labels, 4 if n < 3 else 3, inp))
+            route = ROUTES[(ci + starts[0]) % len(ROUTES)] if n >= 2 else "graph_dict"
+            inp = {"graph_dict": {str(k): v for k, v in d.items()}, "start": starts, "construction_route": route}
+            ok = rep.attempt("operations_run", inp, lambda: check_automaton(rep, d, starts, labels, 4 if n < 3 else 3, inp, route=route))
             rep.case(key=(repr(d), starts[0]), nontrivial=sum(len(v) for v in d.values()) >= 2, sample=inp if rep.evaluations == 30 else None)
             if len(rep.failures) >= 3:
                 return
